@@ -1,5 +1,6 @@
 // Copyright (c) ZeroC, Inc.
 
+use crate::ast::node::Node;
 use crate::ast::Ast;
 use crate::diagnostics::{Diagnostic, Diagnostics, Error};
 use crate::grammar::*;
@@ -55,10 +56,47 @@ impl<'a> RedefinitionChecker<'a> {
         // Keys are the definition's fully-scoped identifiers, and values are references to the definitions themselves.
         let mut seen_definitions = HashMap::new();
 
+        // Stores the identifiers of all the modules that have been declared, including any enclosing modules.
+        // For example, declaring `module A::B` also (implicitly) declares a module named `A`.
+        // Keys are the module's fully-scoped identifiers, and values are references to one of their declarations.
+        let mut seen_modules: HashMap<&str, &Module> = HashMap::new();
+        for node in ast.as_slice() {
+            if let Node::Module(module_ptr) = node {
+                let module = module_ptr.borrow();
+                let mut module_identifier = module.nested_module_identifier();
+                loop {
+                    seen_modules.entry(module_identifier).or_insert(module);
+                    match module_identifier.rfind("::") {
+                        Some(index) => module_identifier = &module_identifier[..index],
+                        None => break,
+                    }
+                }
+            }
+        }
+
         for node in ast.as_slice() {
             // We only check `Entity`s so as to exclude any Slice elements which don't have names (and hence cannot be
             // redefined), and also to exclude modules (which are reopened, not redefined).
             let Ok(definition) = <&dyn Entity>::try_from(node) else { continue };
+
+            // Definitions can't have the same scoped identifier as a module. Otherwise it would be ambiguous whether
+            // identifiers that start with it refer to the definition (and its contents), or to the module's contents.
+            if !matches!(
+                definition.concrete_entity(),
+                Entities::Field(_) | Entities::Enumerator(_) | Entities::Operation(_) | Entities::Parameter(_)
+            ) {
+                if let Some(module) = seen_modules.get(definition.parser_scoped_identifier().as_str()) {
+                    Diagnostic::new(Error::Redefinition {
+                        identifier: definition.identifier().to_owned(),
+                    })
+                    .set_span(definition.raw_identifier().span())
+                    .add_note(
+                        format!("a module named '{}' is declared here", definition.identifier()),
+                        Some(module.span()),
+                    )
+                    .push_into(self.diagnostics);
+                }
+            }
 
             match definition.concrete_entity() {
                 Entities::Struct(struct_def) => {
